@@ -118,6 +118,8 @@ def _random_obj(rng):
     eps = rng.choice(EPSS)
     if eps in S:
         eps = ""
+    if c < 0.35:
+        return U.chain_nfa(rng, rng.choice([5, 6, 7, 8, 10, 11, 13, 16]), S[:2], eps=eps, prefix=rng.choice(["s", "q", "x"]))
     N = U.random_nfa(rng, k, S, eps=eps, prefix=rng.choice(["s", "q", "x"]), total=rng.random() < 0.3)
     if rng.random() < 0.15:
         old = rng.choice(sorted(N.Q))
